@@ -8,7 +8,7 @@ def run(ctx):
     n = 40 if thorough else 5
     tot = {}
     for i in range(n):
-        cnt, _ = refdiff.run_schema(ctx, i, values=60 if thorough else 25, fills=60 if thorough else 25)
+        cnt, _ = refdiff.run_schema(ctx, i, values=60 if thorough else 25, fills=60 if thorough else 25, tl2=True)
         for k, v in cnt.items():
             tot[k] = tot.get(k, 0) + v
     ctx.cov.setdefault("counters", {}).update({"ref_" + k: v for k, v in tot.items()})
@@ -18,7 +18,10 @@ def run(ctx):
                        "independent Python implementation of the documented TL1 format over the generator's own AST) draws hostile abstract values. (a) its bare "
                        "and boxed bytes (+4-byte suffix) must be accepted by generated readers with the same consumed length and re-encoded identically; (b) mutated "
                        "bytes: generated accepts <=> reference accepts, same length and re-encoding; (c) FillRandom output of generated code must be decoded by the "
-                       "reference to a value that re-encodes to the same bytes. TL2 is not covered by the reference yet. distinct_nontrivial = distinct (schema, item, "
+                       "reference to a value that re-encodes to the same bytes; (d) TL2: every reference-drawn value is given to generated code as TL1 and the TL2 bytes it writes "
+                       "must equal RefCodec-TL2 (an independent encoder of the documented TL2 view: varlen sizes, presence-mask blocks with the variant-index bit, slots incl. '#' and "
+                       "true fields, true bits without bytes, counted arrays, dictionaries as arrays of key/value objects, Maybe as a two-variant object, omission of empty values "
+                       "only where the position allows it). TL2 acceptance is not modelled (C12, C13 observe it). distinct_nontrivial = distinct (schema, item, "
                        "case kind, outcome).")
     ctx.count(tot.get("reads", 0) + tot.get("fills", 0))
     ctx.require("schemas compared", tot.get("schemas_compared", 0), max(2, n * 6 // 10))
@@ -26,3 +29,4 @@ def run(ctx):
     ctx.require("accepted agreements", tot.get("agree_accept", 0), 1000)
     ctx.require("rejected agreements", tot.get("agree_reject", 0), 500)
     ctx.require("FillRandom outputs decoded by the reference", tot.get("agree_fill", 0), 300)
+    ctx.require("TL2 encodings equal to the reference", tot.get("agree_tl2", 0), 200)
